@@ -312,7 +312,7 @@ func c04Deadline(c *cx) {
 			bad := ""
 			for _, nd := range g.ReachableNodes(g.EdgeTarget(ce.E), nil) {
 				if rs, ok := nd.(*ast.ReturnStmt); ok {
-					if len(rs.Results) != 1 || ex.Norm(rs.Results[0], nil) != "context.Context.Err[p0]()" {
+					if res := retResults(ex, rs); len(res) != 1 || ex.Norm(res[0], nil) != "context.Context.Err[p0]()" {
 						bad = "the cancelled arm does not return ctx.Err()"
 					}
 					break
@@ -972,6 +972,14 @@ func c04AdaptersReportEveryFault(c *cx, id string) {
 					if sel, isSel := ast.Unparen(cl.Fun).(*ast.SelectorExpr); isSel && sel.Sel.Name == f.Decl.Name.Name && len(cl.Args) == 1 && f.Norm(cl.Args[0], nil) == "p0" {
 						okr = true
 					}
+				}
+			}
+			if !okr && len(rs.Results) == 2 {
+				// n, err := w.Read(p); return n, err
+				rp, _ := g.Where(rs)
+				a, b := f.Norm(rs.Results[0], &rp), f.Norm(rs.Results[1], &rp)
+				if strings.HasSuffix(a, "#0") && strings.HasSuffix(b, "#1") && strings.TrimSuffix(a, "#0") == strings.TrimSuffix(b, "#1") && strings.Contains(a, "."+f.Decl.Name.Name+"[") && strings.HasSuffix(strings.TrimSuffix(a, "#0"), "(p0)") {
+					okr = true
 				}
 			}
 			c.r.Check(id, f, "adapter return", "K: every return of the adapter's "+f.Decl.Name.Name+" is the wrapped "+f.Decl.Name.Name+"(p) itself (count and error pass through together)", rs.Pos(), okr, why+": the count or the error of the wrapped operation is edited on the way")
